@@ -555,7 +555,21 @@ func (f *FuncCtx) builtin(st *State, call *ast.CallExpr, name string) []Term {
 	case "append":
 		s := f.expr(st, call.Args[0])
 		if call.Ellipsis.IsValid() {
-			unsup("append with ... at %s", f.pos(call))
+			// append(a, b...): a slice of length len(a)+len(b) whose first len(a) elements are a's; the appended part is left
+			// unconstrained (no caller reasons about it). Its amortised growth is NOT counted in $allocated (T-ALLOC: Go's
+			// append allocates a constant factor of the final length in total)
+			if len(call.Args) != 2 {
+				unsup("append with ... and %d arguments at %s", len(call.Args), f.pos(call))
+			}
+			b := f.expr(st, call.Args[1])
+			if b.Sort != s.Sort {
+				unsup("append(a, b...) with different element sorts at %s", f.pos(call))
+			}
+			use(f, "append(a, b...) yields a slice of length len(a)+len(b) that starts with a; its amortised allocation is not counted (T-ALLOC)")
+			r := f.fresh("appv", s.Sort)
+			la, lb := "(len_"+s.Sort+" "+s.S+")", "(len_"+b.Sort+" "+b.S+")"
+			st.assume("(= (len_" + s.Sort + " " + r + ") (+ " + la + " " + lb + "))")
+			return []Term{{S: r, Sort: s.Sort, GoT: s.GoT}}
 		}
 		st0 := types.Unalias(f.typeOf(call.Args[0])).Underlying().(*types.Slice)
 		cur := s
